@@ -661,6 +661,8 @@ func runC18(c *Ctx) {
 	c.freshQueuesRule("R5")
 	r.Rule("R6", "with tracking on, NICK and USER are sent from the tracker's own record, which keeps nick, ident and real name for the life of the client: that record is stored only while the tracker is constructed (shared with C12.R7), so no reset on reconnect can blank the ident or name")
 	c.trackerRules(map[string]string{"R7": "R6"})
+	r.Rule("R7", "the nick registered is the current one: the REGISTER handler reads Config.Me, so with tracking on every built-in handler that renames a nick in the tracker which may be the client's own stores the snapshot ReNick returns to Config.Me - whenever the rename succeeded and the old nick is the one Config.Me holds")
+	c.ownRenameRule("R7")
 	// ---- R1
 	h := a.IntTable["REGISTER"]
 	r.Anchor("R1", "REGISTER handler", h != nil)
@@ -2149,4 +2151,85 @@ func (c *Ctx) saslEncodingRule(rule string) {
 		}
 	}
 	r.Floor(rule, "Authenticate calls in the AUTHENTICATE exchange", n, 2)
+}
+
+// ownRenameRule: every tracker ReNick issued by a built-in handler is followed
+// by the refresh of Config.Me from its result (guarded only by "result != nil"
+// and, where the renamed nick is not the client's own by construction, by
+// "old nick == Config.Me.Nick").
+func (c *Ctx) ownRenameRule(rule string) {
+	r, a := c.R, c.A
+	var hs []*ssa.Function
+	var names []string
+	seen := map[*ssa.Function]bool{}
+	for k := range a.IntTable {
+		names = append(names, "i"+k)
+	}
+	for k := range a.StTable {
+		names = append(names, "s"+k)
+	}
+	sort.Strings(names)
+	for _, k := range names {
+		h := a.StTable[k[1:]]
+		if k[0] == 'i' {
+			h = a.IntTable[k[1:]]
+		}
+		if h != nil && !seen[h] {
+			seen[h] = true
+			hs = append(hs, h)
+		}
+	}
+	n := 0
+	for _, h := range hs {
+		for _, dc := range c.deepTrackerCalls(h, "ReNick") {
+			n++
+			res, _ := dc.Site.(ssa.Value)
+			fn := dc.Site.Parent()
+			var st *ssa.Store
+			funcInstrs(fn, func(in ssa.Instruction) {
+				s2, ok := in.(*ssa.Store)
+				if !ok || !c.isFieldStore(in, a.CfgMe) {
+					return
+				}
+				for _, o := range c.originsLocal(s2.Val) {
+					if o == res {
+						st = s2
+					}
+				}
+			})
+			ok, why := st != nil, "the result of ReNick is never stored to Config.Me: after a confirmed change of the client's own nick, Config.Me (read by the REGISTER handler) keeps the old nick"
+			if st != nil {
+				why = "Config.Me = result of ReNick when it succeeded"
+				gotNonNil := false
+				for _, cd := range CondsAt(st.Block()) {
+					if cd.If != nil && !instrDominates(dc.Site, cd.If) {
+						continue // conditions that already guard the rename itself
+					}
+					cd = unwrapNot(cd)
+					bo, isB := cd.V.(*ssa.BinOp)
+					good := false
+					if isB && (bo.Op == token.NEQ || bo.Op == token.EQL) {
+						if (bo.X == res && isNilConst(bo.Y)) || (bo.Y == res && isNilConst(bo.X)) {
+							if (bo.Op == token.NEQ) == cd.True {
+								good, gotNonNil = true, true
+							}
+						}
+						// old nick == Config.Me.Nick
+						isMeNick := func(v ssa.Value) bool { return c.meFieldLoad(v, "Nick") }
+						if (bo.Op == token.EQL) == cd.True && (isMeNick(bo.X) || isMeNick(bo.Y)) {
+							good = true
+						}
+					}
+					if !good {
+						ok, why = false, "the refresh of Config.Me depends on the condition at "+c.InstrPos(cd.If)+" ("+cd.V.String()+")"
+					}
+				}
+				if ok && !gotNonNil {
+					ok, why = false, "Config.Me is overwritten even when ReNick failed (nil result)"
+				}
+			}
+			r.Add(rule, fmt.Sprintf("own-rename:%s#%d", c.FuncKey(h), n), c.InstrPos(dc.Site), c.FuncKey(h), "a rename applied to the tracker is mirrored in Config.Me when it concerns the client itself", ok, why)
+		}
+	}
+	r.Floor(rule, "ReNick calls in built-in handlers", n, 3)
 }
